@@ -229,14 +229,16 @@ func (p *Proxy) Serve(l net.Listener) error {
 			tconn.SetKeepAlivePeriod(3 * time.Minute)
 		}
 
+		// Register the connection before its handler is started, so that Close
+		// waits for every connection that has been accepted.
+		p.connsMu.Lock()
+		p.conns.Add(1)
+		p.connsMu.Unlock()
 		go p.handleLoop(conn)
 	}
 }
 
 func (p *Proxy) handleLoop(conn net.Conn) {
-	p.connsMu.Lock()
-	p.conns.Add(1)
-	p.connsMu.Unlock()
 	defer p.conns.Done()
 	defer conn.Close()
 	if p.Closing() {
